@@ -921,7 +921,8 @@ def c15(work, tier, seed):
     # (1) the model of the harness: all interleavings of search goroutine, cancel helper, consumers and Halt callers
     runs = []
     for limit, mate in ((0, 0), (2, 0), (3, 2), (0, 3), (2, 3)) if not quick else ((0, 0), (3, 2), (2, 3)):
-        consts = {"MaxDepth": 4 if quick else 5, "Limit": limit, "MateAt": mate, "Callers": "{1, 2}" if quick else "{1, 2, 3}", "Grid": 400 if quick else 4000}
+        consts = {"MaxDepth": 4 if quick else 5, "Limit": limit, "MateAt": mate, "Callers": "{1, 2}" if quick else "{1, 2, 3}", "Grid": 400 if quick else 4000,
+                  "StoreFirst": "TRUE", "WaitInit": "TRUE"}
         cfg = vlib.cfg_text(spec="FairSpec", constants=consts,
                             invariants=["StreamInOrder", "StopsWhenItShould", "NeverPastLimit", "HaltAfterDepth1", "HaltAtLeastReported", "HaltReturnsCompleted"],
                             properties=["HaltedExits", "HaltReturnsEventually"])
@@ -930,6 +931,17 @@ def c15(work, tier, seed):
         rep.add_tlc(r)
         runs.append({"limit": limit, "mate": mate, "states": r.distinct})
     rep.extra["mc_iterative"] = runs
+    # non-vacuity: the other order of store / publish, and of wait / quit in Halt, must be rejected
+    rejected = []
+    for name, inv in (("StoreFirst", "HaltAtLeastReported"), ("WaitInit", "HaltAfterDepth1")):
+        consts = {"MaxDepth": 3, "Limit": 0, "MateAt": 0, "Callers": "{1, 2}", "Grid": 10, "StoreFirst": "TRUE", "WaitInit": "TRUE"}
+        consts[name] = "FALSE"
+        r = vlib.tlc(work, "MCIterative", vlib.cfg_text(spec="Spec", constants=consts, invariants=[inv]), workers=4, timeout=600, heap="4g",
+                     name="MCIterative-dev-" + name)
+        if r.ok or ("Invariant %s is violated" % inv) not in (r.out or ""):
+            raise Inconclusive("Iterative.tla: deviation %s=FALSE is not rejected by %s (vacuous property?)" % (name, inv))
+        rejected.append("%s=FALSE violates %s" % (name, inv))
+    rep.extra["mc_iterative_deviations_rejected"] = rejected
     # (2) unbounded proof of the time-control lemma (TLAPS); reported either way, the TLC grid is the baseline
     d = work.sub("tlaps")
     for f in ("TimeControl.tla", "TimeControlProof.tla"):
